@@ -47,13 +47,16 @@ Theorem c20_exit_zero_iff_shutdown :
 Proof. exact shutdown_exit_zero_iff. Qed.
 Print Assumptions c20_exit_zero_iff_shutdown.
 
-(* Under the signature guard of known finding C20-unknown-code (every answer is one
-   the action's wording rules cover): the printed messages are exactly the expected
-   result lines, in order, one per targeted process or unknown group, and the RPC
-   calls are exactly one per name, chosen by split_namespec. *)
+(* Whenever the server answers for every target - with a value, any fault of the
+   single-process or group call, any per-process statuses - the printed messages are
+   exactly the expected result lines, in order, one per targeted process or faulting
+   group, and the RPC calls are exactly one per name, chosen by split_namespec.
+   The only hypothesis left, all_answered, excludes a transport error (socket.error,
+   ProtocolError) in the middle of the command: the command then ends through the
+   exception net / authentication notice (Example transport_error_ends_command). *)
 Theorem c20_one_line_per_target :
   forall a sig url names answers,
-  mem_str "all" names = false -> all_covered a names answers = true ->
+  mem_str "all" names = false -> all_answered a names answers = true ->
   let s := run_targets a sig url names answers in
   rev (out s) = map LText (all_expected a names answers) /\
   List.length (all_expected a names answers) = total_targets a names answers /\
@@ -61,36 +64,27 @@ Theorem c20_one_line_per_target :
 Proof. exact one_line_per_target. Qed.
 Print Assumptions c20_one_line_per_target.
 
-(* ... and without the guard it is false of the code as it stands *)
-Theorem c20_unknown_code_aborts_refuted :
-  exists a names answers,
-    mem_str "all" names = false /\ List.length names = List.length answers /\
-    let s := run_targets a "" "u" names answers in
-    (List.length (out s) < total_targets a names answers)%nat /\
-    out s = [LErr "ValueError" "Unknown result code 30 for a"] /\ ex s = 1 /\
-    rev (calls s) = [("getVersion", []); ("startProcess", [AS "a"])].
-Proof. exact unknown_code_aborts_refuted. Qed.
-Print Assumptions c20_unknown_code_aborts_refuted.
 
 (* The wording chains read from supervisorctl.py give every fault code the wording
-   the specification prescribes and cover exactly the codes it covers ... *)
+   the specification prescribes and cover exactly the codes it covers (the fall-through
+   wording is checked in result_text_spec, used by every theorem below) ... *)
 Theorem c20_wording_tables_meet_spec :
   forall a sig c,
   option_map (norm (cfg_of a sig)) (lookup c (t_table (cfg_of a sig))) = lookup c (spec_wording a).
 Proof. exact table_agrees. Qed.
 Print Assumptions c20_wording_tables_meet_spec.
 
-(* ... a covered code gives its result line; an uncovered one ends in the exception
-   net: one `error:` line, status GENERIC *)
+(* ... and every fault code, covered by a chain or not, yields exactly one line for the
+   target, naming it unless the line is the server's own text; status 0 exactly for the
+   success class *)
 Theorem c20_wording_total :
   forall a sig url n c fs,
   is_group_target a n = false -> n <> "all" ->
   let s := run_targets a sig url [n] [AnsFault c fs] in
-  if has_key c (spec_wording a)
-  then out s = [LText (spec_line a (target_name n) c fs)] /\
-       (ex s = 0 <-> in_success a c = true)
-  else out s = [LErr "ValueError" ("Unknown result code " ++ dec c ++ " for " ++ target_name n)] /\
-       ex s = LSBInit_GENERIC.
+  out s = [LText (spec_line a (target_name n) c fs)] /\
+  (ex s = 0 <-> in_success a c = true) /\
+  (lookup c (spec_wording a) <> Some WFaultString ->
+   prefix (target_name n ++ ": ") (spec_line a (target_name n) c fs) = true).
 Proof. exact wording_total. Qed.
 Print Assumptions c20_wording_total.
 
@@ -98,7 +92,7 @@ Print Assumptions c20_wording_total.
    faults, 1 otherwise *)
 Theorem c20_exit_value_single :
   forall a sig url n c fs,
-  is_group_target a n = false -> n <> "all" -> has_key c (spec_wording a) = true ->
+  is_group_target a n = false -> n <> "all" ->
   ex (run_targets a sig url [n] [AnsFault c fs]) = spec_fault_exit a c.
 Proof. exact exit_value_single. Qed.
 Print Assumptions c20_exit_value_single.
